@@ -361,6 +361,7 @@ VIEW_OPS = {
     'aten.mT.default', 'aten.mH.default', 'aten.chunk.default', 'aten.real.default', 'aten.numpy_T.default',
     'aten.view.dtype', 'aten.unsafe_chunk.default', 'aten.unsafe_split_with_sizes.default',
     'aten._conj.default', 'aten.resolve_conj.default', 'aten.resolve_neg.default', 'aten.lift.default',
+    'aten.squeeze_.dim', 'aten.squeeze_.default', 'aten.squeeze_.dims', 'aten.unsqueeze_.default', 'aten.transpose_.default', 'aten.t_.default',
     'aten.set_.source_Tensor', 'aten.values.default', 'aten.crow_indices.default', 'aten.col_indices.default',
     'aten.ccol_indices.default', 'aten.row_indices.default', 'aten._values.default', 'aten._indices.default', 'aten.indices.default', 'aten.set_.source_Storage_storage_offset', 'aten.set_.source_Storage',
 }
